@@ -914,7 +914,8 @@ PERSIST_POOL = [{"n": 3, "spd": True}, {"n": 3, "spd": True}, {"n": 4, "spd": Fa
 DIMS = (2, 3, 4, 6, 9, 12)
 
 
-def render_persist_model(max_len, sample_mod=1, sample_res=0, sweep_len=2, sweep_all=False, sweep_res=0):
+def render_persist_model(max_len, sample_mod=1, sample_res=0, sweep_len=2, sweep_all=False, sweep_res=0, alg_len=2,
+                         alg_all=False):
     acts = [{"name": a, "req": r, "out": o} for a, r, o in PERSIST_ACTS]
     paths = [{"name": nm, "role": role} for nm, role in SWEEP_PATHS]
     return ("---- MODULE PersistModel ----\n\\* generated by harness/props/c18.py\nEXTENDS Integers, Sequences\n"
@@ -922,7 +923,10 @@ def render_persist_model(max_len, sample_mod=1, sample_res=0, sweep_len=2, sweep
             f"PM_SampleMod == {sample_mod}\nPM_SampleRes == {sample_res}\n"
             f"PM_Paths == {tla.to_tla(paths)}\nPM_Roles == {tla.to_tla(SWEEP_ROLES)}\n"
             f"PM_Classes == {tla.to_tla(SWEEP_CLASSES)}\nPM_SweepLen == {sweep_len}\n"
-            f"PM_SweepAll == {tla.to_tla(bool(sweep_all))}\nPM_SweepRes == {sweep_res}\n====\n")
+            f"PM_SweepAll == {tla.to_tla(bool(sweep_all))}\nPM_SweepRes == {sweep_res}\n"
+            f"PM_Decls == {tla.to_tla(ALG_DECLS)}\n"
+            f"PM_Algebra == {tla.to_tla([{'name': nm, 'arity': ar} for nm, ar in ALG_OPS])}\n"
+            f"PM_AlgLen == {alg_len}\nPM_AlgAll == {tla.to_tla(bool(alg_all))}\nPM_AlgRes == {sweep_res}\n====\n")
 
 
 def _enabled(req, d, pool=PERSIST_POOL):
@@ -1012,6 +1016,48 @@ def _val_digest(x):
     return _hx(repr(x))
 
 
+HIDDEN_SKIP = ("info", )        # diagnostics channel of IterativeOperatorWInfo (wall-clock times, iteration logs)
+
+
+def _obj_digest(x, depth=0):
+    """Identity of an arbitrary attribute value: arrays by bytes, operators / algorithm objects / containers
+    recursively, scalars by repr, callables and classes by name."""
+    np = _np()
+    import types
+    if isinstance(x, (np.ndarray, np.generic)):
+        return _arr_digest(x)
+    if x is None or isinstance(x, (bool, int, float, complex, str, bytes, slice, range)):
+        return _hx(type(x).__name__, repr(x))
+    if isinstance(x, (np.dtype, type)):
+        return _hx("cls", getattr(x, "__name__", None) or str(x))
+    if isinstance(x, types.ModuleType):
+        return _hx("mod", x.__name__)
+    if depth > 6:
+        return _hx("deep", type(x).__name__)
+    if isinstance(x, (tuple, list)):
+        return _hx(type(x).__name__, *[_obj_digest(v, depth + 1) for v in x])
+    if isinstance(x, (set, frozenset)):
+        return _hx("set", *sorted(_obj_digest(v, depth + 1) for v in x))
+    if isinstance(x, dict):
+        return _hx("dict", *[_hx(repr(k), _obj_digest(x[k], depth + 1)) for k in sorted(x, key=repr)])
+    if isinstance(x, (types.FunctionType, types.BuiltinFunctionType, types.MethodType)):
+        return _hx("fn", getattr(x, "__module__", ""), getattr(x, "__qualname__", type(x).__name__))
+    d = getattr(x, "__dict__", None)
+    if isinstance(d, dict):
+        items = [_hx(k, _obj_digest(d[k], depth + 1)) for k in sorted(d) if not (k in HIDDEN_SKIP and _is_op(x))]
+        return _hx("obj", type(x).__name__.split("[")[0], *items)
+    return _hx("opaque", type(x).__name__)
+
+
+def _state_digest(A):
+    """Full observable state of an operator: shape, dtype and every attribute reachable from the instance, hidden
+    ones included (annotations are part of it, and are recorded separately as well)."""
+    try:
+        return _hx(tuple(A.shape), str(A.dtype), _obj_digest(A))
+    except Exception as e:  # noqa: BLE001
+        return "exc:" + type(e).__name__
+
+
 _PINNED = []
 
 
@@ -1084,7 +1130,8 @@ class World:
         return _val_digest(r)
 
     def snapshot(self):
-        """(owned digests, [(dense, ann, leaves_before_densify, kind)], indices whose leaves moved while densifying)."""
+        """(owned digests, [(dense, ann, leaves before densifying, leaves after, kind, full state)], indices whose leaves
+        moved while densifying)."""
         np = _np()
         trip, moved = [], []
         for i, A in enumerate(self.ops):
@@ -1097,9 +1144,11 @@ class World:
                 d = "exc:" + type(e).__name__
             l2 = _leaves_digest(A)
             ann = ",".join(sorted(a.__name__ for a in A.annotations))
-            trip.append([d, ann, l1, l2, type(A).__name__.split("[")[0]])
+            trip.append([d, ann, l1, l2, type(A).__name__.split("[")[0], None])
             if l1 != l2:
                 moved.append(i)
+        for t, A in zip(trip, self.ops):      # after every operator was densified (densifying is a public call too)
+            t[5] = _state_digest(A)
         ow = [_arr_digest(self.owned[k]) for k in self.names]     # after densifying: that is a public call too
         return ow, trip, moved
 
@@ -1187,7 +1236,7 @@ def _persist_task(task):
     def fresh(path, record):
         w = World()
         ow, trip, moved = w.snapshot()
-        trip = [[t[0], t[1], t[2], t[4]] for t in trip]
+        trip = [[t[0], t[1], t[2], t[4], t[5]] for t in trip]
         if record:
             out.append(((), None, "init", ow, trip))
         prev = (ow, trip)
@@ -1210,9 +1259,9 @@ def _persist_task(task):
         p2 = path + ((ai, x), )
         # the recorded leaves are those BEFORE the harness densified; if densifying moved them, a synthetic
         # `to_dense` event follows whose leaves are the ones after
-        pre = [[t[0], t[1], t[2], t[4]] for t in trip]
-        post = [[t[0], t[1], t[3], t[4]] for t in trip]
-        dirty = ow != prev[0] or any(a[:3] != b[:3] for a, b in zip(prev[1], pre))
+        pre = [[t[0], t[1], t[2], t[4], t[5]] for t in trip]
+        post = [[t[0], t[1], t[3], t[4], t[5]] for t in trip]
+        dirty = ow != prev[0] or any(a[:3] + a[4:] != b[:3] + b[4:] for a, b in zip(prev[1], pre))
         if record:
             out.append((p2, (ai, x), res, ow, pre))
         if moved:
@@ -1302,7 +1351,8 @@ def persist_records(nodes):
         recs.append({"p": pos[p[:-1]] if p != () else 0, "fc": pos[ch[0]] if ch else 1, "nc": len(ch),
                      "sig": iid(("sig", sig)) if sig else 0, "res": iid(("res", r)),
                      "ow": iid(("ow", tuple(ow))), "ab": 0, "aa": 0,
-                     "ops": [{"d": iid(("d", t[0])), "a": iid(("a", t[1])), "l": iid(("l", t[2]))} for t in trip]})
+                     "ops": [{"d": iid(("d", t[0])), "a": iid(("a", t[1])), "l": iid(("l", t[2])), "h": iid(("h", t[4]))}
+                             for t in trip]})
     return recs, order
 
 
@@ -1367,6 +1417,8 @@ SWEEP_PATHS = [
     ("inv_diagonal", "rhs"), ("inv_identity", "rhs"), ("inv_scalarmul", "rhs"), ("inv_permutation", "rhs"),
     ("inv_kronecker", "rhs"), ("inv_blockdiag", "rhs"), ("inv_product", "rhs"), ("inv_tridiagonal", "rhs"),
     ("inv_sum", "rhs"), ("inv_unitary", "rhs"), ("pinv", "rhs"),
+    # ONE lazy inverse object applied again and again (truncated iterations, no initial guess: the iterate, not the limit)
+    ("inv_cg_op", "rhs"), ("inv_gmres_op", "rhs"),
     # matrix functions
     ("exp_dense", "rhs"), ("exp_lanczos", "rhs"), ("exp_arnoldi", "rhs"), ("sqrt_psd", "rhs"), ("log_psd", "rhs"),
     ("pow2", "rhs"),
@@ -1458,6 +1510,8 @@ def sweep_paths():
     op("inv_sum", lambda m: cola.linalg.inv(I() + gen(m)))
     op("inv_unitary", lambda m: cola.linalg.inv(cola.Unitary(ops.Dense(m["Q"]))))
     op("pinv", lambda m: cola.linalg.pinv(gen(m)))
+    op("inv_cg_op", lambda m: cola.linalg.inv(psd(m), CG(tol=1e-12, max_iters=2)))
+    op("inv_gmres_op", lambda m: cola.linalg.inv(gen(m), GMRES(tol=1e-12, max_iters=2)))
     op("exp_dense", lambda m: cola.linalg.exp(ops.Dense(m["G"] / 4)))
     op("exp_lanczos", lambda m: cola.linalg.exp(cola.PSD(ops.Dense(m["S"] / 8)), Lanczos(max_iters=n)))
     op("exp_arnoldi", lambda m: cola.linalg.exp(ops.Dense(m["G"] / 4), Arnoldi(max_iters=n)))
@@ -1591,6 +1645,11 @@ class SweepCase:
         vals = sweep_value(pname, self.role, side, cls, self.m, self.P)
         self.kinds = SWEEP_CLASSES[cls]
         self.lay = {kd: make_layout(kd, vals) for kd in self.kinds}
+        # another value of the same class (same shape and dtype) for the unrelated call
+        other = np.array(vals[::-1], copy=True)
+        other = other if other.dtype.kind in "iu" else (other * 2 + 1).astype(vals.dtype)
+        self.lay["other"] = (np.ascontiguousarray(other), None)
+        self.other_classes = []
         self.fixed = sorted(self.m)
         self.tol = 1e-3 if cls.endswith("32") else 1e-6
         self.classes = []           # representatives of the result classes seen so far
@@ -1602,10 +1661,10 @@ class SweepCase:
         return _layout_digest(*self.lay[kind])
 
     def owned(self):
-        return [self.arg_digest(kd) for kd in self.kinds] + [_arr_digest(self.m[k]) for k in self.fixed]
+        return [self.arg_digest(kd) for kd in self.kinds + ["other"]] + [_arr_digest(self.m[k]) for k in self.fixed]
 
     def owned_names(self):
-        return [f"{self.cls}:{kd}" for kd in self.kinds] + ["fixed:" + k for k in self.fixed]
+        return [f"{self.cls}:{kd}" for kd in self.kinds + ["other"]] + ["fixed:" + k for k in self.fixed]
 
     def ops(self):
         """[[dense, annotations, leaves before densifying, kind]] of the swept operator (none for constructor paths)."""
@@ -1620,7 +1679,7 @@ class SweepCase:
         except Exception as e:  # noqa: BLE001
             d = "exc:" + type(e).__name__
         ann = ",".join(sorted(a.__name__ for a in self.A.annotations))
-        return [[d, ann, l1, type(self.A).__name__.split("[")[0]]]
+        return [[d, ann, l1, type(self.A).__name__.split("[")[0], _state_digest(self.A)]]
 
     def call(self, kind):
         """-> (result identity, argument digest before, after).  Results equal within tolerance share an identity."""
@@ -1634,11 +1693,12 @@ class SweepCase:
         except Exception as e:  # noqa: BLE001
             return "exc:" + type(e).__name__, ab, self.arg_digest(kind), f"{type(e).__name__}: {str(e)[:120]}"
         aa = self.arg_digest(kind)
-        for i, rep in enumerate(self.classes):
+        classes = self.other_classes if kind == "other" else self.classes
+        for i, rep in enumerate(classes):
             if _sw_close(val, rep, self.tol):
                 return f"val{i}", ab, aa, ""
-        self.classes.append(val)
-        return f"val{len(self.classes) - 1}", ab, aa, ""
+        classes.append(val)
+        return f"val{len(classes) - 1}", ab, aa, ""
 
 
 def _sweep_task(task):
@@ -1683,9 +1743,10 @@ def sweep_records(chains, offset):
         for j, (kind, res, ab, aa, ow, trip, _) in enumerate(evs):
             me = first + j
             recs.append({"p": 0 if j == 0 else me - 1, "fc": me + 1 if j + 1 < len(evs) else 1, "nc": 1 if j + 1 < len(evs) else 0,
-                         "sig": 0 if j == 0 else iid(("sig", key)), "res": iid(("res", key, res)),
+                         "sig": 0 if j == 0 else iid(("sig", key, kind == "other")), "res": iid(("res", key, kind == "other", res)),
                          "ow": iid(("ow", tuple(ow))), "ab": iid(("arg", ab)) if j else 0, "aa": iid(("arg", aa)) if j else 0,
-                         "ops": [{"d": iid(("d", t[0])), "a": iid(("a", t[1])), "l": iid(("l", t[2]))} for t in trip]})
+                         "ops": [{"d": iid(("d", t[0])), "a": iid(("a", t[1])), "l": iid(("l", t[2])), "h": iid(("h", t[4]))}
+                                 for t in trip]})
             where.append((key, j))
     return recs, where
 
@@ -1704,7 +1765,7 @@ def sweep_violations(chains, where, bad, offset, viol):
         _, pres, _, _, pow_, ptrip, _ = evs[j - 1]
         role = dict(SWEEP_PATHS)[pname]
         opkind = trip[0][3] if trip else "none"
-        names = [f"{cls}:{kd}" for kd in SWEEP_CLASSES[cls]] + ["fixed:" + k for k in sorted(_sw_mats_names())]
+        names = [f"{cls}:{kd}" for kd in SWEEP_CLASSES[cls] + ["other"]] + ["fixed:" + k for k in sorted(_sw_mats_names())]
         found = []
         if not v["arr"] or not v["argf"]:
             changed = [names[i] for i, (a, b) in enumerate(zip(pow_, ow)) if a != b]
@@ -1714,17 +1775,23 @@ def sweep_violations(chains, where, bad, offset, viol):
                           f"caller-owned array(s) {sorted(changed)} changed (argument in layout {kind}"
                           f"{': overwritten' if ab != aa else ''})"))
         for flag, clause, idx, part in (("den", "operator_changed", 0, "dense"), ("lea", "operator_changed", 2, "leaves"),
-                                        ("ann", "annotations_changed", 1, "annotations")):
+                                        ("ann", "annotations_changed", 1, "annotations"),
+                                        ("hid", "operator_changed", 4, "state")):
             if not v[flag]:
-                found.append((clause, {"part": part, "changed_kinds": [opkind]}, f"{part} of the swept operator ({opkind}) changed"))
+                if flag == "hid" and not (v["den"] and v["lea"] and v["ann"]):
+                    continue
+                found.append((clause, {"part": part, "changed_kinds": [opkind]},
+                              f"{part} of the swept operator ({opkind}) changed"
+                              + (" (an attribute outside flatten(): the operator remembers something of the call)" if flag == "hid" else "")))
         if not v["grow"]:
             found.append(("operator_changed", {"part": "pool"}, "the swept operator disappeared"))
         if not v["rep"]:
-            first = next(e for e in evs[1:] if e[0] is not None)
+            first = next(e for e in evs[1:] if e[0] is not None and (e[0] == "other") == (kind == "other"))
             ro = kind.endswith("ro") and res.startswith("exc:") and not first[1].startswith("exc:")
             again = any(e[0] == kind and e[1] != res for e in evs[1:j])
+            after_other = again and any(e[0] == "other" for e in evs[1:j])
             clause = "readonly_rejected" if ro else ("repeat_differs" if again else "layout_dependent_result")
-            found.append((clause, {"result": res.split(":")[0], "first_result": first[1]},
+            found.append((clause, {"result": res.split(":")[0], "first_result": first[1], "after_unrelated_call": after_other},
                           f"result {res} {note} differs from the result {first[1]} of the same call with the argument in layout "
                           f"{first[0]}" + (" (and from the earlier call with this very array)" if again else "")))
         for clause, at, detail in found:
@@ -1750,6 +1817,193 @@ def _sw_mats_names():
     return ["S", "G", "Lw", "Up", "d", "Q", "a2", "c2", "tl", "td", "tu", "perm", "b0", "B0", "cols"]
 
 
+# =================================================================================================
+#                  PERSISTENCE: operator algebra on declared operands (mode "algebra")
+# =================================================================================================
+ALG_DECLS = ["PSD", "SelfAdjoint", "Unitary", "Stiefel", "none"]
+# (name, arity): arity 1 = operates on X, 2 = on X and Y
+ALG_OPS = [
+    ("neg", 1), ("neg_Y", 2), ("sub", 2), ("rsub", 2), ("sub_self", 1), ("add", 2),
+    ("smul_pos", 1), ("smul_neg", 1), ("rmul_neg", 1), ("smul_negint", 1), ("smul_npneg", 1), ("smul_neg_Y", 2),
+    ("smul_cplx", 1), ("rmul_cplx", 1), ("smul_zero", 1), ("div_pos", 1), ("div_neg", 1), ("div_cplx", 1),
+    ("matmul", 2), ("rmatmul", 2), ("gram", 1), ("kron", 2), ("kronsum", 2), ("block_diag", 2),
+    ("T", 1), ("H", 1), ("slice", 1), ("index", 1),
+    ("decl_PSD", 1), ("decl_SelfAdjoint", 1), ("decl_Unitary", 1), ("decl_Stiefel", 1),
+    ("matvec", 1), ("rmatvec", 1), ("to_dense", 1),
+]
+
+
+def alg_ops():
+    np = _np()
+    import cola
+    idx = (np.array([0, 2]), np.array([0, 1]))
+    F = {
+        "neg": lambda X, Y, b: -X, "neg_Y": lambda X, Y, b: -Y, "sub": lambda X, Y, b: X - Y, "rsub": lambda X, Y, b: Y - X,
+        "sub_self": lambda X, Y, b: X - X, "add": lambda X, Y, b: X + Y,
+        "smul_pos": lambda X, Y, b: 2.0 * X, "smul_neg": lambda X, Y, b: -0.5 * X, "rmul_neg": lambda X, Y, b: X * (-0.5),
+        "smul_negint": lambda X, Y, b: -1 * X, "smul_npneg": lambda X, Y, b: X * np.float64(-3.0),
+        "smul_neg_Y": lambda X, Y, b: -2.0 * Y,
+        "smul_cplx": lambda X, Y, b: 1j * X, "rmul_cplx": lambda X, Y, b: X * (2 - 1j), "smul_zero": lambda X, Y, b: 0.0 * X,
+        "div_pos": lambda X, Y, b: X / 3.0, "div_neg": lambda X, Y, b: X / (-2.0), "div_cplx": lambda X, Y, b: X / 1j,
+        "matmul": lambda X, Y, b: X @ Y, "rmatmul": lambda X, Y, b: Y @ X, "gram": lambda X, Y, b: X.H @ X,
+        "kron": lambda X, Y, b: cola.kron(X, Y), "kronsum": lambda X, Y, b: cola.kronsum(X, Y),
+        "block_diag": lambda X, Y, b: cola.block_diag(X, Y),
+        "T": lambda X, Y, b: X.T, "H": lambda X, Y, b: X.H, "slice": lambda X, Y, b: X[1:3, 0:2], "index": lambda X, Y, b: X[idx],
+        "decl_PSD": lambda X, Y, b: cola.PSD(X), "decl_SelfAdjoint": lambda X, Y, b: cola.SelfAdjoint(X),
+        "decl_Unitary": lambda X, Y, b: cola.Unitary(X), "decl_Stiefel": lambda X, Y, b: cola.Stiefel(X),
+        "matvec": lambda X, Y, b: X @ b[:X.shape[1]], "rmatvec": lambda X, Y, b: b[:X.shape[0]] @ X,
+        "to_dense": lambda X, Y, b: X.to_dense(),
+    }
+    if sorted(F) != sorted(nm for nm, _ in ALG_OPS):
+        raise RuntimeError("ALG_OPS and alg_ops() are out of sync")
+    return F
+
+
+class AlgCase:
+    """Two operands X, Y declared `decl` (matrices that do have the declared property) and the arrays they own."""
+    def __init__(self, decl):
+        np = _np()
+        import cola
+        from cola import ops
+        persist_pin()
+        m = _sw_mats()
+        Q2, _ = np.linalg.qr(m["G"].T + 2 * np.eye(SW_N))
+        sym = m["G"] + m["G"].T - 6 * np.eye(SW_N)
+        self.m = {"S": m["S"], "sym": sym, "Q": m["Q"], "Q2": Q2, "G": m["G"], "d": m["d"], "dpos": np.array([1., 2., 3., 4.]),
+                  "Qk": np.ascontiguousarray(m["Q"][:, :3]), "Q2k": np.ascontiguousarray(Q2[:, :3]), "b0": m["b0"]}
+        o = self.m
+        if decl == "PSD":
+            X, Y = cola.PSD(ops.Dense(o["S"])), cola.PSD(ops.Diagonal(o["dpos"]))
+        elif decl == "SelfAdjoint":
+            X, Y = cola.SelfAdjoint(ops.Dense(o["sym"])), cola.SelfAdjoint(ops.Diagonal(o["d"]))
+        elif decl == "Unitary":
+            X, Y = cola.Unitary(ops.Dense(o["Q"])), cola.Unitary(ops.Dense(o["Q2"]))
+        elif decl == "Stiefel":
+            X, Y = cola.Stiefel(ops.Dense(o["Qk"])), cola.Stiefel(ops.Dense(o["Q2k"]))
+        else:
+            X, Y = ops.Dense(o["G"]), ops.Diagonal(o["d"])
+        self.decl, self.X, self.Y = decl, X, Y
+        self.names = sorted(self.m)
+        self.F = alg_ops()
+
+    def owned(self):
+        return [_arr_digest(self.m[k]) for k in self.names]
+
+    def ops(self):
+        np = _np()
+        out = []
+        for A in (self.X, self.Y):
+            l1 = _leaves_digest(A)
+            try:
+                with warnings.catch_warnings(), np.errstate(all="ignore"):
+                    warnings.simplefilter("ignore")
+                    d = _arr_digest(np.asarray(A.to_dense()))
+            except Exception as e:  # noqa: BLE001
+                d = "exc:" + type(e).__name__
+            ann = ",".join(sorted(a.__name__ for a in A.annotations))
+            out.append([d, ann, l1, type(A).__name__.split("[")[0], _state_digest(A)])
+        return out
+
+    def call(self, name):
+        """-> (result identity, note).  An operator result is identified by kind, shape, dtype, annotations, matrix."""
+        np = _np()
+        try:
+            with warnings.catch_warnings(), np.errstate(all="ignore"):
+                warnings.simplefilter("ignore")
+                r = self.F[name](self.X, self.Y, self.m["b0"])
+                if _is_op(r):
+                    ann = ",".join(sorted(a.__name__ for a in r.annotations))
+                    return _hx("op", type(r).__name__.split("[")[0], tuple(r.shape), str(r.dtype), ann,
+                               _arr_digest(np.asarray(r.to_dense()))), f"{type(r).__name__.split('[')[0]}{{{ann}}}"
+                return _val_digest(r), ""
+        except Exception as e:  # noqa: BLE001
+            return "exc:" + type(e).__name__, f"{type(e).__name__}: {str(e)[:100]}"
+
+
+def _alg_task(task):
+    """task = (declaration, [segments of operation names]) -> events like _sweep_task (ab = aa = '')."""
+    from .. import fastimport
+    fastimport.install()
+    from .. import build  # noqa: F401
+    decl, segments = task
+    c = AlgCase(decl)
+    out = [(None, "init", "", "", c.owned(), c.ops(), "")]
+    for seg in segments:
+        for name in seg:
+            res, note = c.call(name)
+            out.append((name, res, "", "", c.owned(), c.ops(), note))
+    return out
+
+
+def alg_execute(lines):
+    groups = {}
+    for ln in lines:
+        groups.setdefault(ln["alg"], []).append(tuple(ln["q"]))
+    tasks = [(d, sorted(segs)) for d, segs in sorted(groups.items())]
+    from concurrent.futures import ProcessPoolExecutor
+    with ProcessPoolExecutor(max_workers=max(1, len(tasks))) as ex:
+        res = list(ex.map(_alg_task, tasks))
+    return [((d, ), evs) for (d, _), evs in zip(tasks, res)]
+
+
+def alg_records(chains, offset):
+    """Trace_Persist records of the algebra chains: the signature of an event is (declaration, operation)."""
+    intern = {}
+
+    def iid(x):
+        return intern.setdefault(x, len(intern) + 1)
+
+    recs, where = [], []
+    for key, evs in chains:
+        first = offset + len(recs) + 1
+        for j, (name, res, _, _, ow, trip, _) in enumerate(evs):
+            me = first + j
+            recs.append({"p": 0 if j == 0 else me - 1, "fc": me + 1 if j + 1 < len(evs) else 1, "nc": 1 if j + 1 < len(evs) else 0,
+                         "sig": 0 if j == 0 else iid(("sig", key, name)), "res": iid(("res", key, name, res)),
+                         "ow": iid(("ow", tuple(ow))), "ab": 0, "aa": 0,
+                         "ops": [{"d": iid(("d", t[0])), "a": iid(("a", t[1])), "l": iid(("l", t[2])), "h": iid(("h", t[4]))}
+                                 for t in trip]})
+            where.append((key, j))
+    return recs, where
+
+
+def alg_violations(chains, where, bad, offset, viol):
+    by_key = dict(chains)
+    agg = {}
+    for l, v in sorted(bad.items()):
+        if l <= offset or l > offset + len(where):
+            continue
+        key, j = where[l - offset - 1]
+        decl = key[0]
+        evs = by_key[key]
+        name, res, _, _, ow, trip, note = evs[j]
+        _, _, _, _, pow_, ptrip, _ = evs[j - 1]
+        found = []
+        if not v["arr"]:
+            found.append(("array_mutated", {"arrays": ["operand-arrays"]}, "array(s) the operands were built from changed"))
+        for flag, clause, idx, part in (("den", "operator_changed", 0, "dense"), ("lea", "operator_changed", 2, "leaves"),
+                                        ("ann", "annotations_changed", 1, "annotations"), ("hid", "operator_changed", 4, "state")):
+            if not v[flag]:
+                if flag == "hid" and not (v["den"] and v["lea"] and v["ann"]):
+                    continue
+                ch = [("XY"[i], ptrip[i][3], ptrip[i][idx], trip[i][idx]) for i in range(2) if ptrip[i][idx] != trip[i][idx]]
+                detail = f"{part} of operand(s) " + ", ".join(
+                    f"{w} ({k})" + (f": {{{a}}} -> {{{b}}}" if part == "annotations" else "") for w, k, a, b in ch) + " changed"
+                found.append((clause, {"part": part, "changed_kinds": sorted({k for _, k, _, _ in ch}),
+                                       "operands": sorted({w for w, _, _, _ in ch})}, detail))
+        if not v["rep"]:
+            found.append(("repeat_differs", {}, f"the repeated operation returned {res[:12]} {note}, not what it returned before"))
+        for clause, at, detail in found:
+            akey = (clause, decl, name, json.dumps(at, sort_keys=True))
+            ent = agg.setdefault(akey, [0, dict(at, action="algebra:" + name, kind=ptrip[0][3], decl=decl, op=name), detail,
+                                        [e[0] for e in evs[1:j + 1]]])
+            ent[0] += 1
+    for (clause, decl, name, _), (cnt, attrs, detail, seq) in sorted(agg.items()):
+        viol.append(Violation(PROP, clause, f"algebra {name} on {decl}-declared operands", attrs,
+                              f"{detail} [{cnt} recorded event(s) rejected by Trace_Persist]",
+                              replay={"kind": "algebra", "decl": decl, "seq": seq}))
+
+
 def persist_part(tier, wd, viol, cov):
     depth = 2 if tier == "quick" else 3
     sample_mod = 1 if tier == "quick" else 8
@@ -1757,12 +2011,13 @@ def persist_part(tier, wd, viol, cov):
                       "PROPERTY MemoStable\nPROPERTY ArgumentsFrame\n", wd,
                       gen_files={"PersistModel.tla": render_persist_model(depth, sample_mod, common.seed() % sample_mod,
                                                                            sweep_len=depth, sweep_all=False,
-                                                                           sweep_res=common.seed())})
+                                                                           sweep_res=common.seed(), alg_len=depth)})
     if mcr.error or mcr.violated:
         raise tla.TLCError(f"MC_Persist failed: {mcr.error or mcr.violated}\n" + mcr.out[-2000:])
     printed = mcr.json_lines()
     seqs = [tuple(tuple(a) for a in ln["h"]) for ln in printed if "h" in ln]
     sweep_lines = [ln for ln in printed if "sw" in ln]
+    alg_lines = [ln for ln in printed if "alg" in ln]
     n_tlc = len(seqs)
     rnd = random_sequences(24 if tier == "quick" else 240, 10 if tier == "quick" else 14, common.seed() + 18)
     from .. import fastimport
@@ -1792,9 +2047,18 @@ def persist_part(tier, wd, viol, cov):
     chains = [c for c in chains if c[1][0][1] == "init"]
     srecs_sw, swhere = sweep_records(chains, len(recs))
     n_base = len(recs)
-    recs = recs + srecs_sw
+    # ---- operator algebra on declared operands: one chain per declaration, same TLC run
+    achains = alg_execute(alg_lines)
+    if sorted(k[0] for k, _ in achains) != sorted(ALG_DECLS):
+        raise RuntimeError("algebra: not every declaration was printed by MC_Persist")
+    for (decl, ), evs in achains:
+        if {ln["q"][0] for ln in alg_lines if ln["alg"] == decl} != {nm for nm, _ in ALG_OPS}:
+            raise RuntimeError(f"algebra {decl}: some operation never comes first")
+    srecs_alg, awhere = alg_records(achains, n_base + len(srecs_sw))
+    recs = recs + srecs_sw + srecs_alg
     tres, bad = persist_validate(wd, recs)
-    sweep_violations(chains, swhere, bad, n_base, viol)
+    sweep_violations(chains, swhere, {l: v for l, v in bad.items() if l <= n_base + len(srecs_sw)}, n_base, viol)
+    alg_violations(achains, awhere, bad, n_base + len(srecs_sw), viol)
     bad = {l: v for l, v in bad.items() if l <= n_base}
     # ---- rejected events -> violations (which entry changed is read off the recording)
     agg = {}
@@ -1810,8 +2074,11 @@ def persist_part(tier, wd, viol, cov):
             changed = [names[i] for i, (a, b) in enumerate(zip(pow_, ow)) if a != b]
             found.append(("array_mutated", {"arrays": changed}, f"caller-owned array(s) {changed} changed"))
         for flag, clause, idx, part in (("den", "operator_changed", 0, "dense"), ("lea", "operator_changed", 2, "leaves"),
-                                        ("ann", "annotations_changed", 1, "annotations")):
+                                        ("ann", "annotations_changed", 1, "annotations"),
+                                        ("hid", "operator_changed", 4, "state")):
             if not v[flag]:
+                if flag == "hid" and not (v["den"] and v["lea"] and v["ann"]):
+                    continue          # already reported through the part that changed
                 ch = [(i + 1, ptrip[i][3]) for i in range(min(len(ptrip), len(trip))) if ptrip[i][idx] != trip[i][idx]]
                 found.append((clause, {"part": part, "changed_kinds": sorted({k for _, k in ch})},
                               f"{part} of pre-existing operator(s) {ch} changed"))
@@ -1846,7 +2113,7 @@ def persist_part(tier, wd, viol, cov):
             forest.append(r)
         expect.append((off + node + 1, flag))
 
-    for field, flag in (("ow", "arr"), ("d", "den"), ("a", "ann"), ("l", "lea")):
+    for field, flag in (("ow", "arr"), ("d", "den"), ("a", "ann"), ("l", "lea"), ("h", "hid")):
         mut = json.loads(json.dumps(srecs))
         if field == "ow":
             mut[i]["ow"] = 999999
@@ -1874,14 +2141,30 @@ def persist_part(tier, wd, viol, cov):
     mut = json.loads(json.dumps(chain))
     mut[2]["res"] = 999999
     add_tree(mut, 2, "rep")
+    # operator algebra: the head of a (real) chain, untouched / with the annotations of operand Y after the first
+    # operation / the full state of operand X after the second corrupted
+    a0 = n_base + len(srecs_sw)
+    achain = [dict(r) for r in srecs_alg[:4]]
+    for r in achain:
+        r["p"] = r["p"] - a0 if r["p"] else 0
+        r["fc"] = r["fc"] - a0 if r["nc"] else 1
+    achain[-1]["fc"], achain[-1]["nc"] = 1, 0
+    add_tree(achain, 0, "clean")
+    clean_nodes += list(range(len(forest) - len(achain) + 1, len(forest) + 1))
+    mut = json.loads(json.dumps(achain))
+    mut[1]["ops"][1]["a"] = 999999
+    add_tree(mut, 1, "ann")
+    mut = json.loads(json.dumps(achain))
+    mut[2]["ops"][0]["h"] = 999999
+    add_tree(mut, 2, "hid")
     expect = [e for e in expect if e[1] != "clean"]
     _, nb = persist_validate(wd, forest, tag="neg", workers=1)
     neg = sum(1 for node, flag in expect if nb.get(node) is not None and not nb[node][flag])
-    if neg != 7:
-        common.machinery_failure(PROP, f"Trace_Persist accepted a corrupted recording ({neg} of 7 controls rejected)")
+    if neg != 10:
+        common.machinery_failure(PROP, f"Trace_Persist accepted a corrupted recording ({neg} of 10 controls rejected)")
     if any(node in nb for node in clean_nodes):
         common.machinery_failure(PROP, "Trace_Persist rejects an untouched layout-sweep chain")
-    n_paths = len(seqs) + len(rnd) + len(sweep_lines)
+    n_paths = len(seqs) + len(rnd) + len(sweep_lines) + len(alg_lines)
     logical = {tuple(k for k in p if k[0] != 0) for p in nodes}
     n_full = sum(1 for q in list(seqs) + list(rnd) if tuple(q) in logical)
     kinds_seen = sorted({t[3] for v in nodes.values() for t in v[3]})
@@ -1900,7 +2183,14 @@ def persist_part(tier, wd, viol, cov):
         "persist_negative_controls_rejected": neg, "persist_calls_whose_result_is_an_exception": n_exc,
         "sweep_paths": len(SWEEP_PATHS), "sweep_cases_path_side_class": len(chains),
         "sweep_layouts": {c: k for c, k in SWEEP_CLASSES.items()},
-        "sweep_path_side_layout_combinations": len({(k[0], k[1], k[2], e[0]) for k, evs in chains for e in evs[1:]}),
+        "sweep_path_side_layout_combinations": len({(k[0], k[1], k[2], e[0]) for k, evs in chains for e in evs[1:] if e[0] != "other"}),
+        "sweep_repeats_after_an_unrelated_call": sum(1 for ln in sweep_lines if "other" in ln["q"]),
+        "algebra_declarations": ALG_DECLS, "algebra_operations": [nm for nm, _ in ALG_OPS],
+        "algebra_sequences_from_tlc": len(alg_lines), "algebra_calls_recorded": sum(len(evs) - 1 for _, evs in achains),
+        "algebra_calls_whose_result_is_an_exception": sorted({f"{k[0]}:{e[0]}:{e[1][4:]}" for k, evs in achains for e in evs[1:]
+                                                              if e[1].startswith("exc:")}),
+        "operator_state_digest": "shape, dtype, annotations, leaves, dense matrix and __dict__ (recursively; attribute "
+                                 f"names skipped: {list(HIDDEN_SKIP)}) of every live operator after every call",
         "sweep_calls_recorded": sum(len(evs) - 1 for _, evs in chains), "sweep_sequence_length": depth,
         "sweep_sequences_from_tlc": len(sweep_lines),
         "sweep_calls_whose_result_is_an_exception": sorted({f"{k[0]}/{k[1]}/{k[2]}:{e[1]}" for k, evs in chains for e in evs[1:]
@@ -1999,11 +2289,39 @@ def replay(path):
                 for k, nm in ((0, "dense"), (1, "annotations"), (2, "leaves")):
                     if a[k if k < 2 else 3] != b[2 if k == 2 else k]:
                         flags.append(f"{nm} of operator #{i + 1} ({a[4]}) changed")
+                if a[5] != b[5] and not any(f.endswith(f"#{i + 1} ({a[4]}) changed") for f in flags):
+                    flags.append(f"state (an attribute outside flatten()) of operator #{i + 1} ({a[4]}) changed")
             for i in moved:
                 flags.append(f"leaves of operator #{i + 1} ({trip2[i][4]}) changed while it was densified")
             print(f"{PERSIST_ACTS[ai - 1][0]}(#{x}) -> {res[:24]}   {'; '.join(flags)}")
             bad = bad or bool(flags)
             ow, trip = ow2, trip2
+        if bad:
+            print(f"VIOLATION property={PROP} replay={path}")
+            return 1
+        return 0
+    if r.get("kind") == "algebra":
+        from .. import fastimport
+        fastimport.install()
+        from .. import build  # noqa: F401
+        c = AlgCase(r["decl"])
+        trip, ow = c.ops(), c.owned()
+        bad, seen = False, {}
+        for name in r["seq"]:
+            res, note = c.call(name)
+            trip2, ow2 = c.ops(), c.owned()
+            flags = []
+            for w, a, b in zip("XY", trip, trip2):
+                for k, nm in ((0, "matrix"), (1, "annotations"), (2, "leaves"), (4, "state")):
+                    if a[k] != b[k]:
+                        flags.append(f"{nm} of operand {w} changed" + (f" {{{a[1]}}} -> {{{b[1]}}}" if k == 1 else ""))
+            if ow2 != ow:
+                flags.append("operand arrays changed")
+            if seen.setdefault(name, res) != res:
+                flags.append("result differs from the earlier identical call")
+            print(f"{name:18s} -> {res[:14]} {note}   {'; '.join(flags)}")
+            bad = bad or bool(flags)
+            trip, ow = trip2, ow2
         if bad:
             print(f"VIOLATION property={PROP} replay={path}")
             return 1
@@ -2025,7 +2343,7 @@ def replay(path):
                 flags.append("the argument was modified")
             if ow2 != ow:
                 flags.append("caller-owned arrays changed: " + str([n for n, a, b in zip(names, ow, ow2) if a != b]))
-            if [t[:3] for t in trip2] != [t[:3] for t in trip]:
+            if [t[:3] + t[4:] for t in trip2] != [t[:3] + t[4:] for t in trip]:
                 flags.append("the swept operator changed")
             first = first or (kind, res)
             if res != first[1]:
